@@ -1,6 +1,7 @@
 package props
 
 import (
+	"math"
 	"fmt"
 	"io"
 	"math/rand"
@@ -262,7 +263,7 @@ func c10run(env *core.Env, idx int) core.CaseResult {
 		case k < 82:
 			st = fsx.Step{K: "Stat", P: names[r.Intn(len(names))]}
 		case k < 92:
-			st = fsx.Step{K: "H.ReadDir", Slot: slot, N: []int{-1, 0, 1, 2, 100}[r.Intn(5)]}
+			st = fsx.Step{K: "H.ReadDir", Slot: slot, N: []int{-1, 0, 1, 2, 100, 1, math.MaxInt, math.MaxInt - 1, math.MinInt}[r.Intn(9)]}
 		default:
 			st = fsx.Step{K: "H.Close", Slot: slot}
 		}
